@@ -759,6 +759,18 @@ for _u, _c in (("quantized_po2", "max()-does-not-enclose"),
       "replayed": "real code: quantized_po2(4,max_value=3)([3.5,-3.5,2.9]) "
                   "-> [4,-4,4], max() -> 3, min() -> -3; "
                   "quantized_relu_po2(4,max_value=3)([3.5]) -> 4, max() -> 3"}
+TRIAGE[("C14", "R11", Q + "binary.__call__",
+        "quantizer-changes-its-own-codes")] = {
+    "what_fails": "binary(use_01=True) maps x >= 0 to the code 1 and x < 0 "
+                  "to the code 0, so its own code 0 is re-quantized to 1: "
+                  "the quantizer is not idempotent.  After an export the "
+                  "layer holds 0/1 weights and quantizes them again in "
+                  "call() (every stored 0 becomes 1), so predictions change "
+                  "and a second export stores all ones; recorded, not "
+                  "repaired: moving the threshold changes training",
+    "replayed": "real code: q = binary(use_01=True, alpha=1); "
+                "q([-0.7, 0.3, 0, 1.5]) -> [0, 1, 1, 1]; q of that -> "
+                "[1, 1, 1, 1]"}
 _ADD = "qkeras/qtools/quantized_operators/multiplier_impl.py::Adder"
 for _k in (("max", "both-capped", "mixed-sign"), ("max", "no-cap", "mixed-sign"),
            ("max", "one-sided-cap", "mixed-sign"),
